@@ -116,6 +116,8 @@ type bstep struct {
 	V  string `json:"v,omitempty"`
 	N  int    `json:"n,omitempty"`
 	Ms int    `json:"ms,omitempty"`
+	// request context of a pin/unpin: now | delay | dl | never (see replica.submit)
+	Ctx string `json:"ctx,omitempty"`
 }
 
 type bscript struct {
@@ -188,8 +190,8 @@ func runBatchScript(s *bscript, seed int64, tf *traceFile, res *hx.Result) {
 			if st.K == "unpin" {
 				v = "-"
 			}
-			rc.emit("call", "op", st.K, "c", st.C, "v", v)
-			out, _ := r.submit(st.K, st.C, st.V)
+			rc.emit("call", "op", st.K, "c", st.C, "v", v, "ctx", st.Ctx)
+			out, _ := r.submit(st.K, st.C, st.V, st.Ctx)
 			rc.emit("ret", "op", st.K, "c", st.C, "v", v, "res", out)
 		case "arm":
 			rc.emit("armcall", "n", st.N)
